@@ -171,3 +171,56 @@ C["kneeliverse.postprocessing.filter_clusters#ranked"] = dict(
         ],
     )},
 )
+
+
+# ------------------------------------------------------------------ C12: corner variant
+CSCORE = "CS(K)"
+CS_DEF = {"CS": (["k"], "Real", "0.5 * ((points[k][0] - points[k-1][0]) * (points[k][1] - points[k+1][1]))")}
+C["kneeliverse.postprocessing.rank_corners_triangle"] = dict(
+    mode="R", owner="C12", params={"points": PTS, "knees": "Seq[Int]"}, returns="Seq[Real]", locals={"ranks": "Seq[Real]"}, spec_funs=CS_DEF,
+    requires=["forall(0, len(knees), lambda k: 1 <= knees[k] and knees[k] <= len(points) - 2)"],
+    ensures=["len(result) == len(knees)",
+             "forall(0, len(knees), lambda q: result[q] == %s)" % CSCORE.replace("K", "knees[q]")],
+    loops={0: dict(inv=["len(ranks) == _it0", "forall(0, _it0, lambda q: ranks[q] == %s)" % CSCORE.replace("K", "knees[q]")])},
+)
+C["kneeliverse.postprocessing.filter_clusters_corners"] = dict(
+    mode="R", owner="C12", spec_funs=CS_DEF,
+    params={"points": PTS, "knees": "Seq[Int]", "clustering": "Fn", "t": "Real"}, returns="Seq[Int]",
+    locals={"filtered_knees": "Seq[Int]"},
+    ghost_vars={"SEL": "Seq[Int]"},
+    callables={"clustering": CLUSTERING},
+    requires=["t > 0", "len(knees) >= 2",
+              "forall2(0, len(points), lambda a, b: points[a][0] < points[b][0])",
+              "forall2(0, len(knees), lambda a, b: knees[a] < knees[b])",
+              "forall(0, len(knees), lambda k: 1 <= knees[k] and knees[k] <= len(points) - 2)"],
+    ensures=[
+        "len(result) == (%s)[len(knees)-1] + 1" % LAB,
+        "forall(0, len(result), lambda j: 0 <= SEL[j] and SEL[j] < len(knees) and result[j] == knees[SEL[j]] and (%s)[SEL[j]] == j)" % LAB,
+        "forall2(0, len(result), lambda a, b: result[a] < result[b])",
+        # the kept knee maximises the corner-triangle score over its cluster
+        "forall(0, len(result), lambda j: forall(0, len(knees), lambda q: implies((%s)[q] == j, %s <= %s)))"
+        % (LAB, CSCORE.replace("K", "knees[q]"), CSCORE.replace("K", "result[j]")),
+    ],
+    after={"current_cluster": ["0 <= (%s)[i] and (%s)[i] < len(knees) and clusters[(%s)[i]] == i" % (WIT, WIT, WIT),
+                               "(clusters == i)[(%s)[i]]" % WIT, "len(current_cluster) >= 1"],
+           "best_knee": ["best_knee == current_cluster[idx]",
+                         "forall(0, len(current_cluster), lambda r: %s <= %s)" % (CSCORE.replace("K", "current_cluster[r]"), CSCORE.replace("K", "best_knee")),
+                         "forall(0, len(knees), lambda q: implies(clusters[q] == i, (clusters == i)[q]))",
+                         "forall(0, len(knees), lambda q: implies(clusters[q] == i, 0 <= _last_mask_pos[q] and _last_mask_pos[q] < len(current_cluster) "
+                         "and current_cluster[_last_mask_pos[q]] == knees[q]))",
+                         "forall(0, len(knees), lambda q: implies(clusters[q] == i, CS(current_cluster[_last_mask_pos[q]]) <= CS(best_knee)))",
+                         "forall(0, len(knees), lambda q: implies(clusters[q] == i, %s <= %s))" % (CSCORE.replace("K", "knees[q]"), CSCORE.replace("K", "best_knee"))]},
+    loops={0: dict(
+        inv=[
+            "len(clusters) == len(knees) and max_cluster == clusters[len(knees)-1]",
+            "forall(0, len(knees), lambda p: clusters[p] == (%s)[p])" % LAB,
+            "len(filtered_knees) == _it0",
+            "forall(0, _it0, lambda j: 0 <= SEL[j] and SEL[j] < len(knees) and filtered_knees[j] == knees[SEL[j]] and clusters[SEL[j]] == j)",
+            "forall2(0, _it0, lambda a, b: filtered_knees[a] < filtered_knees[b])",
+            "forall(0, _it0, lambda j: forall(0, len(knees), lambda q: implies(clusters[q] == j, %s <= %s)))"
+            % (CSCORE.replace("K", "knees[q]"), CSCORE.replace("K", "filtered_knees[j]")),
+        ],
+        ghost_end=["SEL = store(SEL, i, _last_mask_index[idx])"],
+        hints=["best_knee == knees[_last_mask_index[idx]]", "clusters[_last_mask_index[idx]] == i"],
+    )},
+)
